@@ -40,6 +40,9 @@ func runC07(c *Ctx) {
 	c07BatchRebind(c)
 	c07Buckets(c)
 	c07Semaphore(c)
+	handoverRule(c, "C07.handover", "dnsdata", "dnsdata/rdb", "dnsdata/cdb")
+	// a batch-mode compile applies additions through integrate: a step that depends on what an earlier batch stored makes the result depend on batch boundaries
+	c15Unconditional(c, "C07")
 }
 
 // c07Semaphore: a limiter channel whose capacity is an option value is only made when that value is positive.
@@ -113,6 +116,7 @@ func runC08(c *Ctx) {
 	c07Errors(c, "C08.errors", c08Funcs)
 	c15SingleValue(c, "C08")
 	c15Unconditional(c, "C08")
+	c15SortedFlag(c, "C08")
 }
 
 func runC15(c *Ctx) {
@@ -122,6 +126,9 @@ func runC15(c *Ctx) {
 	c15Sorted(c)
 	c15SingleValue(c, "C15")
 	c15Unconditional(c, "C15")
+	c15SortedFlag(c, "C15")
+	// executing a batch is one atomic step that fails without effect
+	c.importRules(runC08, "C08", map[string]string{"atomic": "atomic"})
 }
 
 var c07Funcs = [][2]string{
